@@ -18,6 +18,8 @@ RULE = ('case = (acyclic hard/soft/both DAG over 1-7 probe tasks built by constr
         'update of every DONE dependency is readable. non-trivial = >=1 edge, >=2 workers and >=1 '
         'pre-emption between a worker leaving do() and its notify; distinct = (graph, outcomes, '
         'workers, trace hash)')
+RULE_ADDENDA = (" Decorations shared by the scheduler checks (vlib/schedcase.py): generated insertion order, nested graphs as nodes, a top-level key shared by all updates, back-end first used on another graph, spurious wake-ups, graphs sorted before their last edits, reloaded / resumed initial environment, Scheduler scheduled again, tasks returning their whole own section, updates that are mappings but not dicts, statuses WAITING / PENDING / 1 / 2.0, a well-formed update followed by an entry that can never be merged, a task that schedules a graph of its own with default back-ends (overlapping calls), and (C02, C03) four wide graphs of 300-2100 ready tasks. C01 clause added: the final status seen when a dependant starts is still the dependency's status when the call returns.")
+RULE = RULE + RULE_ADDENDA
 ASSUMPTIONS = ['interleavings are explored at the granularity of synchronisation operations and probe '
                'yield points (DESIGN.md section 2 caveat); releases/notify are not branching points '
                '(mover argument in vlib/vsched.py)',
